@@ -131,6 +131,17 @@ def _worker(item):
         with open(adv, 'rb') as f1, open(adv2, 'rb') as f2:
             out['history_independent'] = f1.read() == f2.read()
         os.remove(adv2)
+        # ... on a converter opened with preload=True (the compressed volume held in memory)
+        adv4 = os.path.join(d, f'a{k}p.sgz')
+        try:
+            with env.quiet():
+                with SgzConverter(src, preload=True) as c:
+                    c.convert_to_adv_sgz(adv4)
+            with open(adv, 'rb') as f1, open(adv4, 'rb') as f2:
+                out['history_independent'] = out['history_independent'] and f1.read() == f2.read()
+        finally:
+            if os.path.exists(adv4):
+                os.remove(adv4)
         # ... and on a converter that has first exported the file to SEG-Y (the other thing an SgzConverter does)
         if k % 2 == 0 and spec[1][0] * spec[1][1] <= 1000:
             adv3, seg3 = os.path.join(d, f'a{k}e.sgz'), os.path.join(d, f'a{k}e.sgy')
